@@ -18,6 +18,7 @@ RULE += " Two directed scripts per case: an in-hours update that fills one order
 RULE += ' Half of the symmetric pairs build the broker with positional arguments in the documented order; a third run the pair once, then revise commission_pct/tax_pct on the same fee-model object and run the same trade again.'
 RULE += ' 12% of the symmetric pairs have a consideration 3-4.9 billionths below n + 0.5 for n in {0, 1, 2} (unambiguously rounds down).'
 RULE += ' 30% of the symmetric pairs run on a broker built with the default fee model and given its PercentFeeModel afterwards (broker.fee_model = ...).'
+RULE += " Round 11: the same real-handler script judged on cash: fills at the FIRST source's quote that has the asset, commission = rates x |consideration rounded to whole units|."
 ASSUMPTIONS = [
     'the quote book is the harness\'s own data handler (the statement quantifies over bid/ask pairs with bid != ask, '
     'which the CSV data source cannot produce)',
